@@ -208,7 +208,7 @@ func (in *vInst) event(api string, zip bool, got bool, caseNo int) map[string]in
 		"S": hx.Ints(S), "A": in.A.Desc(), "R": in.R.Desc(), "h": hx.Ints(in.h[:]), "eq8": in.eq8,
 		"got": got, "case": caseNo, "cfg": *fCfg,
 		"srule": fmt.Sprintf("%s%d", in.c.S.R, in.c.S.J),
-		"ctx": hx.Ints(in.ctx), "msg": hx.Ints(in.msg), "sig": hx.Ints(in.sig),
+		"ctx":   hx.Ints(in.ctx), "msg": hx.Ints(in.msg), "sig": hx.Ints(in.sig),
 	}
 }
 
